@@ -433,8 +433,9 @@ fn handle_diff<T: Clone>(
 
                 // There is space for this new item.
                 res.push(VectorDiff::Insert {
-                    // Subtract 1 because `insert` adds a value compared to `previous_length`.
-                    index: (index - index_of_limit).saturating_sub(1),
+                    // The view starts where the vector, which is one item longer
+                    // after the `insert`, exceeds the limit.
+                    index: index - (previous_length + 1).saturating_sub(limit),
                     value,
                 });
             } else {
